@@ -81,6 +81,11 @@ type Tunnel struct {
 	// Incoming requests
 	inbound chan cemi.Message
 
+	// Telegrams the application was not ready to take; handed over in order by one goroutine.
+	overflowMu sync.Mutex
+	overflow   []cemi.Message
+	draining   bool
+
 	// Goroutine controller
 	done chan struct{}
 	once sync.Once
@@ -353,20 +358,51 @@ func (conn *Tunnel) handleDiscRes(res *knxnet.DiscRes) error {
 	return nil
 }
 
-// pushInbound sends the message through the inbound channel. If the sending blocks, it will launch
-// a goroutine which will do the sending.
+// pushInbound sends the message through the inbound channel. If the sending blocks, the message
+// is queued and a goroutine hands the queued messages over in the order they were pushed.
 func (conn *Tunnel) pushInbound(msg cemi.Message) {
-	select {
-	case conn.inbound <- msg:
+	conn.overflowMu.Lock()
+	defer conn.overflowMu.Unlock()
 
-	default:
-		go func() {
-			// Since this goroutine decouples from the server goroutine, it might try to send when
-			// the server closed the inbound channel. Sending to a closed channel will panic. But we
-			// don't care, because cool guys don't look at explosions.
-			defer func() { recover() }()
-			conn.inbound <- msg
-		}()
+	// Nothing is waiting in front of this message: try to deliver it right away.
+	if !conn.draining {
+		select {
+		case conn.inbound <- msg:
+			return
+
+		default:
+		}
+	}
+
+	conn.overflow = append(conn.overflow, msg)
+
+	if !conn.draining {
+		conn.draining = true
+		go conn.drainInbound()
+	}
+}
+
+// drainInbound delivers the queued messages one by one, oldest first.
+func (conn *Tunnel) drainInbound() {
+	// Since this goroutine decouples from the server goroutine, it might try to send when
+	// the server closed the inbound channel. Sending to a closed channel will panic. But we
+	// don't care, because cool guys don't look at explosions.
+	defer func() { recover() }()
+
+	for {
+		conn.overflowMu.Lock()
+
+		if len(conn.overflow) == 0 {
+			conn.draining = false
+			conn.overflowMu.Unlock()
+			return
+		}
+
+		msg := conn.overflow[0]
+		conn.overflow = conn.overflow[1:]
+		conn.overflowMu.Unlock()
+
+		conn.inbound <- msg
 	}
 }
 
